@@ -415,10 +415,57 @@ func (x *X) havocCallEffects(s *State, i ssa.CallInstruction, wObj map[int]map[s
 	if c.IsInvoke() {
 		if v := x.tryVal(s, c.Value); v != nil {
 			if strings.HasPrefix(c.Method.Name(), "Set") {
+				// AuctionI setters write exactly the fields their (*BaseAuction) body stores to
+				if iv, ok := v.(Iface); ok && iv.Kind != "" {
+					if pp, ok := iv.V.(Ptr); ok && pp.Obj != 0 {
+						if outer, ok := s.objs[pp.Obj].(St); ok {
+							if bp, ok := outer.F["BaseAuction"].(Ptr); ok && bp.Obj != 0 {
+								if fields, ok := x.setterFields(c.Method.Name()); ok {
+									if wObj[bp.Obj] == nil {
+										wObj[bp.Obj] = map[string][]string{}
+									}
+									for _, f := range fields {
+										wObj[bp.Obj][f] = []string{f}
+									}
+									return
+								}
+							}
+						}
+					}
+				}
 				mark(v)
 			}
 		}
 	}
+}
+
+// setterFields: the BaseAuction fields a (*BaseAuction).SetX method stores to (nil, false if it does anything else).
+func (x *X) setterFields(name string) ([]string, bool) {
+	base := x.V.lookupType("BaseAuction")
+	mset := x.V.prog.MethodSets.MethodSet(types.NewPointer(base))
+	var fn *ssa.Function
+	for i := 0; i < mset.Len(); i++ {
+		if mset.At(i).Obj().Name() == name {
+			fn = x.V.prog.MethodValue(mset.At(i))
+		}
+	}
+	if fn == nil || len(fn.Blocks) != 1 {
+		return nil, false
+	}
+	var out []string
+	for _, in := range fn.Blocks[0].Instrs {
+		switch i := in.(type) {
+		case *ssa.Store:
+			fa, ok := i.Addr.(*ssa.FieldAddr)
+			if !ok || fa.X != fn.Params[0] {
+				return nil, false
+			}
+			out = append(out, fieldName(fa.X.Type().Underlying().(*types.Pointer).Elem(), fa.Field))
+		case ssa.CallInstruction:
+			return nil, false
+		}
+	}
+	return out, len(out) > 0
 }
 
 // ghost havoc for loops: ghost variables written by calls inside the loop.
